@@ -41,4 +41,10 @@ def check(model, tier):
     expressions.r13_4_required_columns(ctx, rule="R04.5")
     run.assume("operations preserve row order in engines that implement backtrack_unary (documented in UnaryOperation.commute)")
     run.assume("a Calculation is a deterministic function of existing columns (documented)")
+    from ..rules import classlevel as _classlevel
+
+    _classlevel.r_commutator_messages(ctx, "R04.M1")
+    from ..rules.foundation import run_foundation
+
+    run_foundation(ctx, "04")
     return run
